@@ -485,3 +485,51 @@ static inline _Bool i_hdr(const CL *L) { return (L->head == NULL) == (L->tail ==
   __CPROVER_ensures(__CPROVER_return_value == 3 ==> (*node == __CPROVER_old(*node) && (*node)->previous == NULL)) \
   __CPROVER_ensures(__CPROVER_return_value == 0 ==> (*node == __CPROVER_old((*node)->previous) && LIVE(*node) && (*node)->rank < g_u0))   /* strictly decreasing rank: the walk terminates */
 #define CONTRACT_CL_ownsHandle__loop0 OWN_BODY_CONTRACT
+
+/* ================================================================== C19: getNextCounter on wrap-around (callbacklist.h:423), -DOB_WRAP
+ * reset loop (split): every LIVE node gets generation 1, removed nodes (mark 0) are never touched; afterwards the
+ * list counter restarts at 1 so "live => 1 <= counter <= currentCounter" holds again and new nodes get larger ones.
+ * 32-bit arithmetic is exact (unsigned int). */
+#ifdef OB_WRAP
+static inline _Bool reset_inv(const Node *c, const Node *W)      /* nodes the cursor has passed are reset */
+{ return !(LIVE(W) && (c == NULL || W->rank < c->rank)) || W->counter == 1; }
+#define RS_C (*node)
+#define CONTRACT_CL_getNextCounter__loop0 \
+  __CPROVER_requires(__CPROVER_is_fresh(self, sizeof(CL)) && __CPROVER_is_fresh(result, sizeof(unsigned int)) && __CPROVER_is_fresh(node, sizeof(Node *)) && __CPROVER_is_fresh(__retval, sizeof(unsigned int))) \
+  __CPROVER_requires(RS_C == NULL ? FRESH_NODE(gW) : (FRESH_NODE(RS_C) && (PEQ(gW, RS_C) || FRESH_NODE(gW)) && (RS_C->next == NULL || PEQ(RS_C->next, gW) || FRESH_NODE(RS_C->next)))) \
+  __CPROVER_requires(HELD(self) && CLOCK_OK && g_b0 == LIVE(gW)) \
+  __CPROVER_requires(RS_C != NULL ==> (LIVE(RS_C) && g_fwd(RS_C) && gap(RS_C, gW) && uniq(RS_C, gW))) \
+  __CPROVER_requires(reset_inv(RS_C, gW)) \
+  __CPROVER_assigns(*node) \
+  __CPROVER_assigns(RS_C != NULL: RS_C->counter) \
+  __CPROVER_ensures(HELD(self) && (__CPROVER_return_value == 0 || __CPROVER_return_value == 3)) \
+  __CPROVER_ensures(__CPROVER_return_value == 3 ==> (RS_C == NULL && reset_inv(NUL, gW)))     /* loop exit: EVERY live node has been reset */ \
+  __CPROVER_ensures(__CPROVER_return_value == 0 ==> (__CPROVER_old(*node)->counter == 1 && RS_C == __CPROVER_old((*node)->next) && (RS_C != NULL ==> LIVE(RS_C)) && reset_inv(RS_C, gW))) \
+  __CPROVER_ensures(LIVE(gW) == g_b0)                                                         /* nobody is lost, nobody resurrected */
+#define CONTRACT_CL_getNextCounter__loop0_pre \
+  __CPROVER_requires(__CPROVER_is_fresh(self, sizeof(CL)) && __CPROVER_is_fresh(result, sizeof(unsigned int)) && __CPROVER_is_fresh(node, sizeof(Node *)) && __CPROVER_is_fresh(__retval, sizeof(unsigned int))) \
+  __CPROVER_requires(NULL_OR_FRESH(self->head) && ((self->head != NULL && PEQ(gW, self->head)) || FRESH_NODE(gW))) \
+  __CPROVER_requires(UNLOCKED(self) && headgap(self, gW) && (self->head != NULL ==> LIVE(self->head))) \
+  __CPROVER_assigns(*node, self->mutex.depth) \
+  __CPROVER_ensures(__CPROVER_return_value == 0 && HELD(self) && *node == self->head && (*node != NULL ==> LIVE(*node)) && reset_inv(*node, gW))
+#define CONTRACT_CL_getNextCounter__loop0_epi \
+  __CPROVER_requires(__CPROVER_is_fresh(self, sizeof(CL)) && __CPROVER_is_fresh(result, sizeof(unsigned int)) && __CPROVER_is_fresh(node, sizeof(Node *)) && __CPROVER_is_fresh(__retval, sizeof(unsigned int))) \
+  __CPROVER_requires(HELD(self)) \
+  __CPROVER_assigns(self->mutex.depth) \
+  __CPROVER_ensures(__CPROVER_return_value == 0 && UNLOCKED(self))
+/* summary of the loop as established by prologue / iteration / exit (loop rule, meta-step) */
+#define CONTRACT_CL_getNextCounter__loop0_summary \
+  __CPROVER_requires(HELD(self) && *node == self->head) \
+  __CPROVER_assigns(*node, gW->counter) \
+  __CPROVER_ensures(__CPROVER_return_value == 0 && HELD(self)) \
+  __CPROVER_ensures(__CPROVER_old(gW->counter) == 0 ? gW->counter == 0 : gW->counter == 1)
+/* the whole function (skeleton = real body with the loop replaced by its summary) */
+#define CONTRACT_CL_getNextCounter__skel \
+  __CPROVER_requires(__CPROVER_is_fresh(self, sizeof(CL)) && NULL_OR_FRESH(self->head) && ((self->head != NULL && PEQ(gW, self->head)) || FRESH_NODE(gW))) \
+  __CPROVER_requires(UNLOCKED(self) && i_cnt(self, gW) && g_b0 == LIVE(gW) && g_u0 == self->currentCounter && g_u1 == gW->counter) \
+  __CPROVER_assigns(self->currentCounter, self->mutex.depth, gW->counter) \
+  __CPROVER_ensures(UNLOCKED(self) && __CPROVER_return_value != 0 && __CPROVER_return_value == self->currentCounter) \
+  __CPROVER_ensures(g_u0 != 0xffffffffull ? (self->currentCounter == (unsigned int)g_u0 + 1 && gW->counter == (unsigned int)g_u1) \
+                                          : (self->currentCounter == 1 && (g_b0 ==> gW->counter == 1))) \
+  __CPROVER_ensures(LIVE(gW) == g_b0 && i_cnt(self, gW))      /* removed stay removed, live stay live, and 1 <= counter <= currentCounter again */
+#endif
